@@ -20,9 +20,13 @@ PY
 git apply /tmp/_mut_src.diff || { echo "patch does not apply"; exit 2; }
 git diff --stat | tail -3
 cd /verif
+# evidence/ and replays/ must only ever hold results for the unchanged tree: save and restore them
+rm -rf /tmp/_mut_keep && mkdir -p /tmp/_mut_keep && cp -a evidence replays /tmp/_mut_keep/ 2>/dev/null
 for p in "$@"; do
   out=$(bin/check $p 2>&1 | grep -v "^KNOWN-FINDING" | tail -3)
   echo "[$p] $out"
 done
 git -C /repo checkout -- .
+mkdir -p /tmp/_mut_last && rm -rf /tmp/_mut_last/* && cp -a replays /tmp/_mut_last/ 2>/dev/null   # the mutant's replays, for inspection
+rm -rf evidence replays && cp -a /tmp/_mut_keep/evidence /tmp/_mut_keep/replays . 2>/dev/null
 git -C /repo status --short | head -3
